@@ -776,7 +776,9 @@ Record obs := {
   ob_outcome : outcome;
   ob_canary_ok : bool;     (* the follow-up well-formed request (when sent) was answered 2xx *)
   ob_alloc_kb : Z;         (* bytes allocated while serving, KiB *)
-  ob_body_kb : Z           (* size of the request body, KiB *)
+  ob_body_kb : Z;          (* size of the request body, KiB *)
+  ob_decoded_kb : Z;       (* size of what its Content-Encoding decodes to, KiB (the body itself without one); measured by the harness *)
+  ob_limit_kb : Z          (* the decoded-size limit the server was configured with (pbPool.limit = input_buffer_mb / 2), KiB *)
 }.
 Record case := { c_id : Z; c_req : request; c_obs : obs }.
 
@@ -793,6 +795,10 @@ Definition responded (o : outcome) : bool := match o with O2xx | O4xx | O5xx => 
 (* allocation allowed for one request: a constant plus a multiple of the body (decoders copy and expand);
    a snappy header may DECLARE up to 4 GiB in 5 bytes -- that must not be allocated *)
 Definition alloc_bound_kb (body_kb : Z) : Z := (65536 + 64 * body_kb)%Z.
+(* the bytes the server agrees to look at for one request: the body on the wire, or -- under a Content-Encoding -- what it
+   decodes to, up to the configured limit (helpers.LimitDecoded hands no more than that to the route).  The allowance
+   is taken on this size: it does not grow with the compression ratio beyond the operator's limit. *)
+Definition served_kb (ob : obs) : Z := Z.max (ob_body_kb ob) (Z.min (ob_decoded_kb ob) (ob_limit_kb ob)).
 
 (* size limit on snappy bodies: a block that declares more than the limit and whose decoded form WOULD be
    accepted must not be accepted (unless its compressed bytes happen to be a message themselves) *)
@@ -809,7 +815,7 @@ Definition malformed_rejected (q : request) (o : outcome) : bool :=
 
 Definition spec_ok (q : request) (ob : obs) : bool :=
   responded (ob_outcome ob) && ob_canary_ok ob
-  && (ob_alloc_kb ob <=? alloc_bound_kb (ob_body_kb ob))%Z
+  && (ob_alloc_kb ob <=? alloc_bound_kb (served_kb ob))%Z
   && snappy_limit_respected q (ob_outcome ob)
   && malformed_rejected q (ob_outcome ob).
 
